@@ -42,10 +42,12 @@ EXPLANATION = (
     'ExternalDependency._check_version compares versions only when self.version is non-empty. '
     'R7: every read of a [provide] table (provided_deps, wrapdb_provided_deps) in Resolver uses a lower-cased key or a key of the table itself. '
     'R8: on every path of Interpreter.func_dependency that reaches lookup(), the value of the `fallback` keyword was handed to set_fallback() or is known to be None. '
+    'R9: in Interpreter.do_subproject the call of the wrap resolver\'s resolve() has, for every exception class of wrap.py that wrap.py raises (closed world of the module, class hierarchy from its class statements), a handler that catches it, and every path of that handler on which the subproject is not required returns self.disabled_subproject(..) (so an optional lookup whose fallback cannot be resolved - hash mismatch, nodownload, failed patch - yields not-found). '
+    'R1a/R1f also read candidates given as closures with the name bound (functools.partial(self.m, <name parameter>=X), the loop supplying the other two parameters by signature); R2d reads an archive path that is a parameter through every call site of the function in wrap.py (who-may-call; a function used as a value ends Undecided); local closures (def inside the function, only called) are expanded like helpers and an applied lambda is beta-reduced. '
     'R4: apply_patch/apply_diff_files run only in _resolve inside a try whose handlers remove self.dirname and re-raise; every return of _resolve is '
     'gated by has_buildfile(). NOT decided: outcomes of run-time lookups (system state, subproject configuration), the cross product of the policy table as behaviour, '
     'that sha256/urlopen behave as documented, KeyboardInterrupt during patching, how the text of a [provide] value is cut into names (per-item strip()/lower() in PackageDefinition.parse_provide_section is string processing on run-time values), '
-    'that an override is found by a dependency() call that names another method/modules/components (these keywords are part of the identifier by upstream design; confirmed by probe, not armed), a guard of _get_cached_dep spelled with another attribute than the reference knows (ends Undecided), override_dependency() in interpreter/mesonmain.py, '
+    'that an override is found by a dependency() call that names another method/modules/components (these keywords are part of the identifier by upstream design; confirmed by probe, not armed), a guard of _get_cached_dep spelled with another attribute than the reference knows (ends Undecided), override_dependency() in interpreter/mesonmain.py (which static=/default_library variants of the identifier an override is registered under - seed C10-r7-2, if/elif over membership tests - is a value-level table of another module that no rule of this pack anchors), '
     'a failure of the acquisition step itself (a failing shutil.unpack_archive in _get_file / clone in _get_git leaves a partly populated directory that a later run accepts when the build file was already unpacked: outside the clause "a failed patch/diff step", printed as an information note by R4, witness in the note), '
     '`meson subprojects update/packagefiles` (msubprojects.py re-applies patches outside the cleanup), a known call made with other operands than the reference reads (e.g. _get_cached_dep(self.names[0], ..) inside the loop over the names, get_varname() with swapped operands, find_dep_provider(self.names[0])): the atom is not recognised and the table rule ends Undecided, it is not reported as a violation.')
 ASSUMPTIONS = ['Dependency objects are truthy; NotFoundDependency.found() is False',
@@ -131,6 +133,16 @@ def _fn(mod: Module, qn: str) -> T.Any:
                 S.EXTERNAL_PARAMS['get_dep_identifier'] = [x.arg for x in a.posonlyargs + a.args]
         meths = mod.methods(cls)
         helpers = {q: f for q, f in mod.funcs().items() if '.' not in q and q not in MODULE_VOCAB.get(mod.rel, frozenset())}
+        # local closures (`def f(..)` as a statement of the function, used in call position only): late binding makes the call read like
+        # the body written in place, so they are expanded like module-level helpers (round 13)
+        callpos = {id(c.func) for c in ast.walk(fn) if isinstance(c, ast.Call)}
+        for st in fn.body:
+            if isinstance(st, ast.FunctionDef) and not st.decorator_list and st.name not in helpers \
+                    and sum(1 for n in ast.walk(fn) if isinstance(n, (ast.FunctionDef, ast.AsyncFunctionDef, ast.ClassDef)) and n.name == st.name) == 1 \
+                    and not any(isinstance(n, ast.Name) and n.id == st.name and (id(n) not in callpos or isinstance(n.ctx, ast.Store)) for n in ast.walk(fn)) \
+                    and not any(isinstance(n, ast.Call) and isinstance(n.func, ast.Name) and n.func.id == st.name for n in ast.walk(st)):
+                helpers = dict(helpers)
+                helpers[st.name] = st
         new = S.inline_helpers(fn, meths, VOCAB[cls], modfuncs=helpers)          # (always a private copy)
         _INLINED[key] = (mod, S.canonicalise(new, meths, cls, _constants(mod, cls), _records(mod, cls)))
     return _INLINED[key][1]
@@ -933,6 +945,11 @@ def r1g(ctx: RuleCtx) -> None:
         if var is not None:
             name = {'ARG2': 'given name', WRAPVAR: 'wrap name'}.get(var[0], var[0])
             return f'variable ({name}) or not-found object' if var[1] else f'variable ({name}), None when it does not exist'
+        local_defs = {n.name for n in ast.walk(fn) if isinstance(n, (ast.FunctionDef, ast.Lambda)) and n is not fn and hasattr(n, 'name')}
+        for c in [v] + [x for x in ast.walk(v) if isinstance(x, ast.Call)]:
+            if isinstance(c, ast.Call) and (isinstance(c.func, ast.Lambda) or (isinstance(c.func, ast.Name) and c.func.id in local_defs)
+                                            or (S.self_method_called(c) and S.self_method_called(c) not in VOCAB[H])):
+                raise Undecided(f'{qn}: the result `{short(v)}` is computed by a local function / helper that could not be expanded')
         return 'other: ' + short(v)
 
     def ref(v: T.Dict[str, bool]) -> T.Any:
@@ -2257,6 +2274,94 @@ def r8(ctx: RuleCtx) -> None:
 _DONE: T.Dict[T.Any, T.Tuple[T.List[T.Tuple[str, tuple, dict]], T.Optional[BaseException]]] = {}
 
 
+# ---------------------------------------------------------------------------------------------
+# R9  a failed resolve of an optional subproject disables it (round 13, seed C10-r7-3)
+
+def _catches(h: ast.ExceptHandler, ancestors: T.Set[str]) -> bool:
+    """does the handler catch an exception whose class has these ancestor names (itself included)"""
+    if h.type is None:
+        return True
+    names = h.type.elts if isinstance(h.type, ast.Tuple) else [h.type]
+    out = False
+    for n_ in names:
+        c = attr_chain(n_)
+        if c is None:
+            raise Undecided(f'handler type {short(n_)} is not a class name')
+        last = c.split('.')[-1]
+        out = out or last in ancestors or last in ('Exception', 'BaseException')
+    return out
+
+
+def r9(ctx: RuleCtx) -> None:
+    from ..paths import enumerate_paths
+    imod = ctx.repo.module(INTERP)
+    wmod = ctx.repo.module(WRAP)
+    wcls = {q: c for q, c in wmod.classes().items() if '.' not in q}
+
+    def ancestors(name: str) -> T.Set[str]:
+        out, todo = set(), [name]
+        while todo:
+            x = todo.pop()
+            if x in out:
+                continue
+            out.add(x)
+            if x in wcls:
+                todo.extend((attr_chain(b) or '?').split('.')[-1] for b in wcls[x].bases)
+        return out
+    # built-in example: a handler for the subclass does not catch the base class, one for the base class catches both
+    ex = ast.parse('try:\n    pass\nexcept wrap.WrapNotFoundException:\n    pass\nexcept (OSError, wrap.WrapException):\n    pass').body[0]
+    assert isinstance(ex, ast.Try)
+    if _catches(ex.handlers[0], {'WrapException', 'MesonException'}) or not _catches(ex.handlers[1], {'WrapNotFoundException', 'WrapException'}):
+        raise AssertionError('R9: the built-in example is not read as intended')
+    # what a resolve can report: the exception classes of wrap.py raised by the functions of wrap.py (closed world of the module)
+    raised: T.Set[str] = set()
+    for q, f in wmod.funcs().items():
+        for n_ in ast.walk(f):
+            if isinstance(n_, ast.Raise) and n_.exc is not None:
+                c = attr_chain(n_.exc.func if isinstance(n_.exc, ast.Call) else n_.exc)
+                if c and c.split('.')[-1] in wcls:
+                    raised.add(c.split('.')[-1])
+    ctx.floor('exception classes of wrap.py raised in wrap.py', len(raised), 1)
+    qn = 'Interpreter.do_subproject'
+    fn = imod.func(qn)
+    fl = Flow(fn)
+    sites = [c for c in calls_in(fn, nested=True) if call_method(c) == 'resolve' and isinstance(c.func, ast.Attribute)
+             and any(o.startswith('attr:') and o.endswith('.wrap_resolver') for o in fl.origins(c.func.value))]
+    if not sites:
+        raise Undecided(f'{qn}: no call of the wrap resolver\'s resolve() found here (moved to a helper?)')
+    # the local that says whether the subproject is required: second result of extract_required_kwarg(..), bound once
+    req = [st.targets[0].elts[1].id for st in ast.walk(fn) if isinstance(st, ast.Assign) and isinstance(st.value, ast.Call)
+           and (call_name(st.value) or '').split('.')[-1] == 'extract_required_kwarg' and len(st.targets) == 1 and isinstance(st.targets[0], ast.Tuple)
+           and len(st.targets[0].elts) == 3 and isinstance(st.targets[0].elts[1], ast.Name)]
+    if len(req) != 1 or len(_assigned(fn, req[0])) != 1:
+        raise Undecided(f'{qn}: `required` is not the once-bound second result of extract_required_kwarg()')
+    REQ = req[0]
+    checked: T.Set[int] = set()
+    for c in sites:
+        tries = [t for t in ast.walk(fn) if isinstance(t, ast.Try) and any(x is c for st in t.body for x in ast.walk(st))]
+        tries.sort(key=lambda t: -t.lineno)      # innermost first
+        for x in sorted(raised):
+            anc = ancestors(x)
+            h = next((h_ for t in tries for h_ in t.handlers if _catches(h_, anc)), None)
+            ctx.require(h is not None, f'{qn}: a resolve failure reported as {x} is caught', imod, qn, f'resolve failure {x}',
+                        f'`{short(c)}`: no handler around it catches {x} (raised in wrap.py): a fallback that cannot be resolved aborts an optional lookup '
+                        f'instead of disabling the subproject; handlers: {[short(h_.type) if h_.type is not None else "bare" for t in tries for h_ in t.handlers]}')
+            if h is None or id(h) in checked:
+                continue
+            checked.add(id(h))
+            for p in enumerate_paths(h.body):
+                cm = p.cond_map()
+                for k in cm:
+                    if k != REQ and REQ in {n_.id for n_ in ast.walk(_parse(k)) if isinstance(n_, ast.Name)}:
+                        raise Undecided(f'{qn}: the handler tests `required` as {k}')
+                if cm.get(REQ) is True:
+                    continue
+                ok = p.outcome == 'return' and isinstance(p.value, ast.Call) and call_method(p.value) == 'disabled_subproject'
+                ctx.require(ok, f'{qn}: handler path `{p.describe()}` disables the optional subproject', imod, qn, f'handler path: {p.describe()}',
+                            f'in the handler of the resolve failure the path `{p.describe()}` (not required) does not return self.disabled_subproject(..)')
+
+
+
 class _Recorder:
     def __init__(self, ctx: RuleCtx, log: T.List[T.Tuple[str, tuple, dict]]):
         self._ctx, self._log = ctx, log
@@ -2304,6 +2409,7 @@ r5 = _replayable(r5, DETECT, INTERP, DF)
 r6 = _replayable(r6, DBASE, DF)
 r7 = _replayable(r7, WRAP)
 r8 = _replayable(r8, INTERP, DF)
+r9 = _replayable(r9, INTERP, WRAP)
 
 RULES = [
     Rule('C10.R1a', 'candidate order and guards (_get_candidates)', r1a),
@@ -2321,6 +2427,7 @@ RULES = [
     Rule('C10.R5', 'keyword arguments applied after / rewritten during the lookup are not part of the dependency identifier', r5),
     Rule('C10.R6', 'a placeholder for a missing version never satisfies a version constraint on the cached path', r6),
     Rule('C10.R8', 'the fallback keyword reaches set_fallback() for every value but None', r8),
+    Rule('C10.R9', 'a resolve failure of an optional subproject is caught (every wrap exception class) and disables it', r9),
     Rule('C10.R7', 'the [provide] tables are read with lower-cased keys', r7),
     Rule('C10.R4', 'patch/diff failure removes the directory and re-raises; returns gated by has_buildfile()', r4),
 ]
